@@ -18,7 +18,7 @@
 EXTENDS Integers, Sequences, FiniteSets, TLC
 
 EmptyMap == [x \in {} |-> 0]
-Restrict(f, S) == [x \in S |-> f[x]]
+RestrictTo(f, S) == [x \in S |-> f[x]]
 Dom(a) == DOMAIN a
 
 El(k, v)    == [k |-> k, pay |-> v.pay, r |-> v.r, t |-> v.t]
@@ -28,7 +28,7 @@ Lookup(a, k) == IF k \in Dom(a) THEN <<El(k, a[k])>> ELSE <<>>
 Elems(a)    == {El(k, a[k]) : k \in Dom(a)}
 PriOpt(a, k) == IF k \in Dom(a) THEN <<[r |-> a[k].r, t |-> a[k].t]>> ELSE <<>>
 With(a, k, v) == [x \in Dom(a) \cup {k} |-> IF x = k THEN v ELSE a[x]]
-Without(a, k) == Restrict(a, Dom(a) \ {k})
+Without(a, k) == RestrictTo(a, Dom(a) \ {k})
 SetPri(a, k, r, t) == With(a, k, [pay |-> a[k].pay, r |-> r, t |-> t])
 SetPay(a, k, p)    == With(a, k, [pay |-> p, r |-> a[k].r, t |-> a[k].t])
 
